@@ -297,6 +297,16 @@ class MockPg:
                 out.append(self.emit(req, 'T', struct.pack('>h', 1) + b'c\0' + struct.pack('>ihihih', 0, 0, 25, -1, -1, 0)))
                 out.append(self.emit(req, 'D', struct.pack('>hi', 1, 6) + b'b%dr%03d' % (self.idx % 10, req['n'] % 1000)))
                 out.append(self.emit(req, 'C', b'SELECT 1\0'))
+        if self.sym_status:
+            # "every server status at that instant": whatever the statement was, the backend may report any status PostgreSQL can
+            # reach from the previous one (I->I|T, T->I|T|E, E->E|I); the ground truth follows what it reports
+            new = self.ip.fresh(8, 'b%d_status' % self.idx)
+            old = self.status.z()
+            I, T, Ee = ord('I'), ord('T'), ord('E')
+            self.ip.assume(z3.Or(new.z() == I, new.z() == T, new.z() == Ee))
+            self.ip.assume(z3.Implies(old == I, new.z() != Ee))
+            self.ip.assume(z3.Implies(old == Ee, new.z() != T))
+            self.status = new
         out.append(self.ready(req))
         return out
 
